@@ -28,3 +28,14 @@ theorem correction_flag_model (h : String) : correctionFlag h = C05.correctionFl
 
 example : correctionFlag "MI-numba-randomized" = true ∧ correctionFlag "MI-numba-3mr" = false := by decide
 end Src.C03
+
+namespace Src.C03
+open Gen.Src.C03
+/-- `if feature_one == args.label_column: swap` – the label always ends up as the conditioning (second) vector -/
+theorem label_first_model (a label : String) : labelFirst a label = decide (a = label) := by unfold labelFirst; rfl
+
+theorem orient_uses_source (p : String × String) (label : String) :
+    C05.orient p label = if labelFirst p.1 label then (p.2, label) else p := by
+  unfold C05.orient labelFirst
+  by_cases e : p.1 = label <;> simp [e]
+end Src.C03
